@@ -8,6 +8,7 @@ import (
 	"math/rand/v2"
 	"runtime"
 	"sort"
+	"strconv"
 	"strings"
 	"sync/atomic"
 	"time"
@@ -48,7 +49,7 @@ func (c18) Cases(tier string, seed uint64) []fw.Case {
 	}
 	cs := make([]fw.Case, n)
 	for i := range cs {
-		cs[i] = fw.Case{Seed: fw.CaseSeed(seed, "C18", i), Name: fmt.Sprintf("server%d", i), Params: map[string]any{"random": rnd, "msgpack": i%2 == 1, "slice": i, "slices": n}}
+		cs[i] = fw.Case{Seed: fw.CaseSeed(seed, "C18", i), Name: fmt.Sprintf("server%d", i), Params: map[string]any{"random": rnd, "msgpack": i%2 == 1, "slice": i / 2, "slices": n / 2}}
 	}
 	return cs
 }
@@ -102,6 +103,13 @@ func c18Templates(ids []string) []c18tmpl {
 	comp := map[string]any{"property": "_or", "_or": []any{vq, tq, map[string]any{"property": "_and", "_and": []any{fq, map[string]any{"property": "s", "string": map[string]any{"value": "a", "operator": "startsWith"}}}}}}
 	return []c18tmpl{
 		{name: "v2-create", method: "POST", path: "/v2/collections", body: map[string]any{"id": "scratch", "indexSchema": c18SchemaJSON()}, mutating: true},
+		// index parameters of the quantisers (removed again right after it was accepted)
+		{name: "v2-create-quantized", method: "POST", path: "/v2/collections", body: map[string]any{"id": "scratchq", "indexSchema": map[string]any{
+			"bq": map[string]any{"type": "vectorFlat", "vectorFlat": map[string]any{"vectorSize": 4, "distanceMetric": "euclidean",
+				"quantizer": map[string]any{"type": "binary", "binary": map[string]any{"threshold": 0.5, "triggerThreshold": 0, "distanceMetric": "hamming"}}}},
+			"pq": map[string]any{"type": "vectorVamana", "vectorVamana": map[string]any{"vectorSize": 8, "distanceMetric": "euclidean", "searchSize": 75, "degreeBound": 64, "alpha": 1.3,
+				"quantizer": map[string]any{"type": "product", "product": map[string]any{"numCentroids": 16, "numSubVectors": 2, "triggerThreshold": 1000}}}},
+		}}, mutating: true},
 		{name: "v2-list", method: "GET", path: "/v2/collections", body: nil, mutating: false},
 		{name: "v2-get", method: "GET", path: "/v2/collections/base", body: nil, mutating: false},
 		{name: "v2-insert", method: "POST", path: "/v2/collections/base/points", body: map[string]any{"points": []any{c18Point("", 1), c18Point("", 2)}}, mutating: true},
@@ -301,7 +309,7 @@ func mutations(t c18tmpl, useMsgpack bool) []c18mut {
 				add("non-uuid", "not-a-uuid", false, true)
 			}
 		case float64, int:
-			for _, n := range []any{0, -1, 1, 24, 25, 75, 76, 100, 101, 4096, 4097, 1 << 31, 1 << 62, 1e308, -1e308, 0.5} {
+			for _, n := range []any{0, -1, 1, 24, 25, 75, 76, 100, 101, 4096, 4097, 1 << 31, 1 << 62, math.MaxInt64, math.MaxInt64 - 7, math.MinInt64, uint64(math.MaxUint64), 1 << 53, 1e308, -1e308, 0.5} {
 				inv := false
 				switch key {
 				case "limit":
@@ -331,16 +339,23 @@ func mutations(t c18tmpl, useMsgpack bool) []c18mut {
 				add(fmt.Sprintf("number:%v", n), n, false, inv)
 			}
 			if useMsgpack {
-				add("nan", math.NaN(), false, false)
-				add("+inf", math.Inf(1), false, false)
+				// alpha has a documented range (1.1..1.5): a non-finite alpha is certainly invalid
+				add("nan", math.NaN(), false, key == "alpha")
+				add("+inf", math.Inf(1), false, key == "alpha")
+				// the same as 32-bit floats: MessagePack decodes a float64 into a float32 field
+				// with an error, so only these reach the float32 parameters (alpha, thresholds)
+				add("nan32", float32(math.NaN()), false, key == "alpha")
+				add("+inf32", float32(math.Inf(1)), false, key == "alpha")
 			}
 		}
 	}
 	walk(t.body, nil)
 	if t.mutating && !t.sink {
 		keep := out[:0]
+		// a create request carries index parameters, not data: non-finite numbers stay in
+		isCreate := strings.Contains(t.name, "-create")
 		for _, m := range out {
-			if !nonFiniteRisk(m.class) {
+			if !nonFiniteRisk(m.class) || isCreate && (strings.HasPrefix(m.class, "nan") || strings.HasPrefix(m.class, "+inf")) {
 				keep = append(keep, m)
 			}
 		}
@@ -394,6 +409,10 @@ func toFloat(n any) float64 {
 	switch x := n.(type) {
 	case int:
 		return float64(x)
+	case int64:
+		return float64(x)
+	case uint64:
+		return float64(x)
 	case float64:
 		return x
 	}
@@ -424,7 +443,9 @@ type c18srv struct {
 	lenViol atomic.Int64
 	lastLen atomic.Value
 	base    string // baseline digest
-	panics  int64
+	// collections of the fixture (everything else was made by a mutated create request)
+	fixtures map[string]bool
+	panics   int64
 }
 
 func (s *c18srv) digest() string {
@@ -460,11 +481,36 @@ func (s *c18srv) digest() string {
 	return fmt.Sprintf("%x", fw.Hash64(sb.String()))
 }
 
+// f32Fields converts the values of the parameters that are 32-bit floats in the API (alpha, weight,
+// threshold) to float32: MessagePack keeps the width of a float, and the server refuses a 64-bit
+// float for such a field, so a MessagePack client has to send them this way.
+func f32Fields(node any) any {
+	switch x := node.(type) {
+	case map[string]any:
+		out := make(map[string]any, len(x))
+		for k, v := range x {
+			if f, ok := v.(float64); ok && (k == "alpha" || k == "weight" || k == "threshold") {
+				out[k] = float32(f)
+			} else {
+				out[k] = f32Fields(v)
+			}
+		}
+		return out
+	case []any:
+		out := make([]any, len(x))
+		for i, v := range x {
+			out[i] = f32Fields(v)
+		}
+		return out
+	}
+	return node
+}
+
 func (s *c18srv) encode(body any, useMsgpack bool) ([]byte, string, bool) {
 	if useMsgpack {
 		var buf bytes.Buffer
 		enc := msgpack.NewEncoder(&buf)
-		if err := enc.Encode(body); err != nil {
+		if err := enc.Encode(f32Fields(body)); err != nil {
 			return nil, "", false
 		}
 		return buf.Bytes(), "application/msgpack", true
@@ -540,13 +586,53 @@ func (s *c18srv) send(t c18tmpl, desc string, raw []byte, ct string, headers map
 		}
 		s.res.Stat("digests_after_4xx", 1)
 	case resp.Status >= 200 && resp.Status < 300 && t.mutating:
+		if ((t.name == "v2-create" || t.name == "v1-create") && desc != "unmutated" || t.name == "v2-create-quantized") && s.fixtures != nil {
+			// An accepted create request passed validation: the collection it made must be readable
+			// (a request that passes validation is processed without a 5xx). It is then removed, so
+			// that the next mutated create request is judged on its own and not answered "exists".
+			for _, id := range s.listCols() {
+				if s.fixtures[id] {
+					continue
+				}
+				for _, path := range []string{"/v2/collections/" + id, "/v2/collections"} {
+					if g := s.cl.Do("GET", path, nil); g.Status >= 500 {
+						s.res.Violate("5xx", "C18:5xx-after-accepted-create:"+t.name+":"+errClassStr(string(g.Body)), fmt.Sprintf("%s %s was accepted (%d), afterwards GET %s answers %d %s", t.name, desc, resp.Status, path, g.Status, trimBody(g.Body)), witness)
+					}
+				}
+				s.cl.Do("DELETE", "/v2/collections/"+id, nil)
+				s.res.Stat("collections_made_by_mutated_create_requests", 1)
+			}
+		}
 		s.base = s.digest()
 	}
 }
 
+func (s *c18srv) listCols() []string {
+	r := s.cl.Do("GET", "/v2/collections", nil)
+	cols := []string{}
+	if arr, ok := r.JSON["collections"].([]any); ok {
+		for _, e := range arr {
+			if m, ok := e.(map[string]any); ok {
+				cols = append(cols, fmt.Sprint(m["id"]))
+			}
+		}
+	}
+	return cols
+}
+
 func nonFiniteRisk(desc string) bool {
-	for _, m := range []string{"special-float", "1e+308", "1e308", "number:2147483648", "number:4611686018427387904", "nan", "+inf", "fuzz "} {
+	for _, m := range []string{"special-float", "1e+308", "1e308", "nan", "+inf", "fuzz "} {
 		if strings.Contains(desc, m) {
+			return true
+		}
+	}
+	// a number of large magnitude inside a vector can make a distance overflow float32
+	if i := strings.Index(desc, "number:"); i >= 0 {
+		tok := desc[i+len("number:"):]
+		if j := strings.IndexAny(tok, " @"); j >= 0 {
+			tok = tok[:j]
+		}
+		if f, err := strconv.ParseFloat(tok, 64); err == nil && math.Abs(f) >= 1<<31 {
 			return true
 		}
 	}
@@ -664,6 +750,10 @@ func (c18) RunCase(c fw.Case, env *fw.Env) *fw.CaseResult {
 		s.cl.Do("POST", "/v2/collections/v1compat/points", map[string]any{"points": pts})
 	}
 	s.base = s.digest()
+	s.fixtures = map[string]bool{}
+	for _, id := range s.listCols() {
+		s.fixtures[id] = true
+	}
 	// ---- the unmutated templates must work (sanity of the generator, and the
 	// API crossings are requests that pass validation)
 	templates := c18Templates(s.ids)
